@@ -272,6 +272,5 @@ class Module:
 def relpath(p):
     from .build import REPO
     for pre in (REPO.rstrip("/") + "/", "/repo/"):
-        if p.startswith(pre):
-            return p[len(pre):]
+        p = p.replace(pre, "")
     return p
